@@ -248,7 +248,11 @@ def rand_tlv(rng, maxlen):
         out += item
         if rng.random() < 0.3:
             break
-    return out or b'\x82\x02\x00\x00'
+    out = out or b'\x82\x02\x00\x00'
+    if rng.random() < 0.25 and len(out) < maxlen:
+        # low-values filler behind the last tag (chip data padded to a fixed size): the walker stops at the first 00 tag
+        out += b'\x00' * rng.choice([1, 2, maxlen - len(out), rng.randint(1, maxlen - len(out))])
+    return out
 
 
 def rand_de43(rng, codec, vmax):
